@@ -208,7 +208,8 @@ Theorem internal_step_decreases_measure : forall c s l s' z,
   0 <= mu s' < mu s.
 Proof.
   exact (fun c s l s' z R St Hi H =>
-           conj (mu_nonneg s') (mu_decreases c s l s' z (reach_tokinv _ c s R) St Hi H)).
+           conj (mu_nonneg s' (tokinv_step c s l s' z (reach_tokinv _ c s R) H))
+                (mu_decreases c s l s' z (reach_tokinv _ c s R) St Hi H)).
 Qed.
 
 (* RELEASED WHEN SPACE (eventuality).  S1-free reachable state of a running queue; only the queue's own threads move.
@@ -249,6 +250,27 @@ Theorem pool_objects_unshared : forall c s,
   (forall p b s' z, step c s (LObj p b) = Some (s', z) -> hget p (held s) = Some b /\ s' = s).
 Proof. exact pool_objects_unshared_l. Qed.
 
+(* THE COND API INCLUDING Broadcast.  cond.Broadcast is called by no production code (the queues' Shutdown broadcasts
+   on hasMoreElements, a sync.Cond); it is modelled as label LBroadcast, which wf_label excludes from [reachable].
+   On EVERY run of the API (reachable_api: all labels, Broadcast included) the token invariant holds, the cancelled
+   waiter's receive never blocks, and a blocked Broadcast has a full slot and somebody still counted. *)
+Theorem cond_api_invariant : forall c s,
+  reachable_api c s ->
+  cnt is_insel (prods s) + cnt is_leftctx (prods s) = waiting s + b2z (tok s) + sb s /\ 0 <= waiting s /\
+  (forall p, lock s <> BRecv p) /\
+  (lock s = BBcast -> tok s = true /\ 0 < waiting s).
+Proof. exact cond_api_invariant_l. Qed.
+
+(* what one Broadcast section does (up to its first blocking send) *)
+Theorem broadcast_step : forall c s s' z,
+  step c s LBroadcast = Some (s', z) ->
+  lock s = Free /\
+  (waiting s = 0 -> s' = s) /\
+  (0 < waiting s -> tok s = false -> tok s' = true /\ waiting s' = waiting s - 1 /\
+     (waiting s = 1 -> lock s' = Free) /\ (1 < waiting s -> lock s' = BBcast)) /\
+  (0 < waiting s -> tok s = true -> lock s' = BBcast /\ waiting s' = waiting s).
+Proof. exact broadcast_step_l. Qed.
+
 Print Assumptions mq_size_exact.
 Print Assumptions pq_size_bounds.
 Print Assumptions offer_refused_iff.
@@ -272,3 +294,5 @@ Print Assumptions internal_step_decreases_measure.
 Print Assumptions released_when_space.
 Print Assumptions progress_while_stuck.
 Print Assumptions pool_objects_unshared.
+Print Assumptions cond_api_invariant.
+Print Assumptions broadcast_step.
